@@ -3,6 +3,7 @@ package props
 import (
 	"fmt"
 	"math/rand/v2"
+	"strings"
 
 	"verif/core"
 	"verif/gen"
@@ -16,6 +17,21 @@ type c09Case struct {
 	Prog *gen.Program `json:"prog"`
 	Seed uint64       `json:"seed"`
 	Kind string       `json:"kind"`
+	Wrap bool         `json:"wrap,omitempty"` // also judged inside $( ), "$( )" and backquotes
+}
+
+// c09Hostile is a comment text full of characters that mean something outside a comment.
+const c09Hostile = " `b` 'q \"d $( ) } ;; <<E fi ${"
+
+type c09Wrapper struct {
+	name, pre, post string
+	bq              bool
+}
+
+var c09Wrappers = []c09Wrapper{
+	{"cmdsubst", "echo $(", ") tail\n", false},
+	{"quoted-cmdsubst", "x=\"$(", ")\"\n", false},
+	{"backquotes", "echo `", "` tail\n", true},
 }
 
 type layoutEdit struct {
@@ -56,12 +72,14 @@ func c09Edits(toks []gen.Tok) []layoutEdit {
 					layoutEdit{"blank-lines-with-blanks", i, "  \n\t\n", nil},
 					layoutEdit{"comment-line", i, "# full line\n", []string{" full line"}},
 					layoutEdit{"comment-line-ending-in-backslash", i, "# not a continuation \\\n", []string{" not a continuation \\"}},
-					layoutEdit{"indented-comment-line", i, "   #x\n  ", []string{"x"}})
+					layoutEdit{"indented-comment-line", i, "   #x\n  ", []string{"x"}},
+					layoutEdit{"hostile-comment-line", i, "#" + c09Hostile + "\n", []string{c09Hostile}})
 			}
 		case bNL:
 			out = append(out, layoutEdit{"blanks-before-newline", i, " \t ", nil},
 				layoutEdit{"comment-before-newline", i, " # c " + fmt.Sprint(i), []string{" c " + fmt.Sprint(i)}},
 				layoutEdit{"empty-comment-before-newline", i, " #", []string{""}},
+				layoutEdit{"hostile-comment-before-newline", i, " #" + c09Hostile, []string{c09Hostile}},
 				layoutEdit{"comment-ending-in-backslash-before-newline", i, " # c\\", []string{" c\\"}},
 				layoutEdit{"continuation-before-newline", i, " \\\n", nil})
 		default:
@@ -78,6 +96,7 @@ func c09Edits(toks []gen.Tok) []layoutEdit {
 					layoutEdit{"blank-lines-at-linebreak", i, " \n\n  ", nil},
 					layoutEdit{"comment-at-linebreak", i, " # lb\n", []string{" lb"}},
 					layoutEdit{"comment-ending-in-backslash-at-linebreak", i, " # lb \\\n", []string{" lb \\"}},
+					layoutEdit{"hostile-comment-at-linebreak", i, " #" + c09Hostile + "\n", []string{c09Hostile}},
 					layoutEdit{"comment-lines-at-linebreak", i, "\n# one\n\n  # two\n", []string{" one", " two"}})
 			}
 		}
@@ -188,6 +207,45 @@ func c09Exec(c *core.Ctx, cs c09Case) {
 	for _, e := range edits {
 		judge(e.name, applyEdits(toks, e).Text, e.comment)
 	}
+	// the same program and the same transformations inside a command substitution: the
+	// reference is the untransformed wrapped text.  Inside backquotes a backquote within
+	// a comment is undefined (XCU 2.6.3) and backslashes are processed before the text is
+	// parsed, so programs and transformations that hold either are left out there.
+	if cs.Wrap {
+		for _, w := range c09Wrappers {
+			if w.bq && strings.ContainsAny(base.Text, "`\\") {
+				continue
+			}
+			if strings.HasPrefix(base.Text, "(") {
+				w.pre += " " // "$((" would start an arithmetic expansion
+			}
+			refCmds, refCom, refErr := parseAll("c09", w.pre+base.Text+w.post)
+			if refErr != nil || len(refCom) != 0 {
+				c.Count("wrap-skipped/"+w.name, 1)
+				continue
+			}
+			wantW := skel.Cmds(refCmds, skel.Normalised)
+			c.Count("wrapped/"+w.name, 1)
+			for _, e := range edits {
+				if w.bq && strings.ContainsAny(e.text, "`\\") {
+					continue
+				}
+				text := w.pre + applyEdits(toks, e).Text + w.post
+				cmds2, com2, err2 := parseAll("c09", text)
+				c.Eval(1)
+				c.Count("transformation-in-"+w.name+"/"+e.name, 1)
+				key := e.name + " in " + w.name + ": " + q(text)
+				switch {
+				case err2 != nil:
+					c.Violation("rejected", key, "accepted like "+q(w.pre+base.Text+w.post), err2.Error(), "")
+				case skel.Cmds(cmds2, skel.Normalised) != wantW:
+					c.Violation("meaning-changed", key, wantW, skel.Cmds(cmds2, skel.Normalised), "untransformed: "+q(w.pre+base.Text+w.post))
+				case !sameStrings(commentTextsOf(com2), append([]string{}, e.comment...)):
+					c.Violation("comments", key, fmt.Sprintf("%q", e.comment), fmt.Sprintf("%q", commentTextsOf(com2)), "")
+				}
+			}
+		}
+	}
 	// pairs of transformations at two boundaries
 	r := randFor(cs.Seed, 99)
 	for k := 0; k < 12 && len(edits) > 1; k++ {
@@ -259,9 +317,9 @@ func c09Gen(c *core.Ctx) {
 			continue
 		}
 		r := c.Rand("prog", int64(i))
-		o := gen.Options{Budget: 3 + r.IntN(10), Heredocs: i%3 == 0, Flat: i%4 == 1, LeadHD: i%5 == 2}
+		o := gen.Options{Budget: 3 + r.IntN(10), Heredocs: i%3 == 0, Flat: i%4 == 1, LeadHD: i%5 == 2, InParen: i%4 == 3}
 		p := gen.New(r, o).Program()
-		core.Run(c, c09Case{Prog: p, Seed: uint64(c.Seed)*31337 + uint64(i), Kind: "generated"}, c09Exec)
+		core.Run(c, c09Case{Prog: p, Seed: uint64(c.Seed)*31337 + uint64(i), Kind: "generated", Wrap: i%4 == 3}, c09Exec)
 	}
 	_ = rand.Int
 }
@@ -271,7 +329,7 @@ func init() {
 		ID:          "C09",
 		Level:       "exploration",
 		Technique:   "runtime monitoring: metamorphic oracle — the untransformed parse of a generator-confirmed program is the reference; every applicable single-boundary layout transformation (and random pairs, and every separator swap) is applied and the normalised skeleton and the comment list are compared",
-		Rule:        "a case is a generated program; transformations: at every token boundary {extra blanks, tab, mixed blanks, no blank where none is required, backslash-newline (plain / indented / bare)}, before every newline {blanks, comment, empty comment, continuation}, at every boundary where the grammar has `linebreak` {newline, blank lines, comment, comment lines}, at line starts {indentation, blank/comment lines}, at end of input {blanks, comment without newline}, no final newline; at every and-or list of a compound list {';' <-> newline, ';'+newline, '&'+newline}, for-clause ';' <-> newline; plus 12 random pairs per program. distinct_nontrivial = distinct programs; counters transformation/<kind> give the applied transformations.",
+		Rule:        "a case is a generated program; transformations: at every token boundary {extra blanks, tab, mixed blanks, no blank where none is required, backslash-newline (plain / indented / bare)}, before every newline {blanks, comment, empty comment, continuation}, at every boundary where the grammar has `linebreak` {newline, blank lines, comment, comment lines}, at line starts {indentation, blank/comment lines}, at end of input {blanks, comment without newline}, no final newline; at every and-or list of a compound list {';' <-> newline, ';'+newline, '&'+newline}, for-clause ';' <-> newline; plus 12 random pairs per program; comment texts include a hostile one made of backquotes, quotes, $(, ), }, ;;, <<E, fi and ${; every fourth program is generated for a parenthesised context and all its single-boundary transformations are repeated with the program inside echo $( ), x=\"$( )\" and backquotes (reference: the untransformed wrapped text; inside backquotes programs and transformations holding a backquote or backslash are left out: XCU 2.6.3 leaves a backquote inside a comment there undefined). distinct_nontrivial = distinct programs; counters transformation/<kind> give the applied transformations.",
 		Assumptions: []string{"reference = the untransformed parse, itself confirmed against the generator's expectation (C02)", "nothing is inserted between a newline and a pending here-document body"},
 		Gen:         c09Gen,
 		Replay:      func(c *core.Ctx, raw []byte) { core.ReplayOne(c, raw, c09Exec) },
